@@ -52,6 +52,9 @@ func (f *Func) Attr(k string) string {
 	return ""
 }
 
+// AttrList returns every value of an attribute.
+func (f *Func) AttrList(k string) []string { return f.Attrs[k] }
+
 // Set is all contracts of one package (or several).
 type Set struct {
 	Funcs     map[string]*Func
